@@ -10,8 +10,9 @@ RULE = ("seeded pairs of string-valued grammars (shared variable names, same obj
         "PYTHONHASHSEED (fresh names get their index from set order); results extracted, bounded language "
         "(<=4) by the reference and by the library's contains compared with reference set algebra; non-trivial = "
         "both bounded languages non-empty; distinct = (pair digest, order signature)")
-ASSUMPTIONS = ["variable values are strings or ints; the order seam acts through "
-               "PYTHONHASHSEED only", "bounded comparison: words of length <= 4 (<= 3 for closures)"]
+ASSUMPTIONS = ["three quarters of the cases use plain strings (where the reserved fresh names can really collide) or "
+               "int-valued variables; one quarter the full value range (V objects with scheduled hashes, mixed terminal "
+               "types, a variable and a terminal sharing a value)", "bounded comparison: words of length <= 4 (<= 3 for closures)"]
 RES = ["#STARTUNION#", "#STARTCONC#", "#STARTCLOS#", "#STARTPOSCLOS#", "#VARPOSCLOS#", "S#SUBS#0", "S#SUBS#1",
        "A#SUBS#1", "#STARTUNION##SUBS#0"]
 
@@ -30,6 +31,13 @@ def gen(rng, tier):
                 c["prods"] = [[ren(h), [ren(x) for x in bd]] for h, bd in c["prods"]]
     if rng.chance(0.12):
         a["valmode"] = b["valmode"] = "ivar"
+    if a["valmode"] == "str" and rng.chance(0.25):
+        # the full value range of the grammar workload (V objects with scheduled hashes, terminals of mixed types, a
+        # variable and a terminal sharing a value); the second operand uses the same values for the same names
+        a2 = G.gen_cfg(rng, max_vars=3, max_prods=5, max_body=3)
+        if a2["terms"]:
+            a = a2
+            b["valmode"], b["hash"] = a["valmode"], a["hash"]
     sub_t = rng.pick(a["terms"])
     return {"a": a, "b": b, "same_object": rng.chance(0.1), "sub_terminal": sub_t}
 
@@ -77,8 +85,14 @@ def _cmp(out, op, res, want, tks, n, case):
         d = sorted(got ^ want, key=lambda w: (len(w), w))
         out.fail(op + ":language", word=list(d[0]), want=d[0] in want)
         return
+    vals = {}
+    for side in ("a", "b"):
+        for t in case[side]["terms"] + G.TERMS + [G.FOREIGN]:
+            vals.setdefault(G.key(G.val(case[side], t)), G.val(case[side], t))
     for w in M.words_over(tks, min(n, 3)):
-        g = out.call(op + ".contains", res.contains, [k[2:] for k in w])
+        if not all(k in vals for k in w):
+            continue
+        g = out.call(op + ".contains", res.contains, [vals[k] for k in w])
         if g is FAILED:
             return
         if bool(g) != (w in want):
